@@ -474,7 +474,7 @@ func init() {
 			x.Close()
 			return w
 		}
-		srcs := []src{{"static:3:30", 0, 1}, {"join:3:5:60", 0, 5}}
+		srcs := []src{{"static:3:30", 0, 1}, {"join:3:5:60", 0, 2}}
 		if th {
 			srcs = []src{{"static:3:45", 0, 1}, {"join:3:5:84", 0, 1}, {"leave:4:6:60", 0, 2}}
 		}
@@ -499,13 +499,13 @@ func init() {
 			}
 		}
 		// a history in which every event carries a 16 KiB transaction (more than a megabyte per hundred events in the
-		// database): clean stop and every 40th (thorough: 6th) crash point
+		// database): clean stop and every 20th (thorough: 6th) crash point
 		{
 			base := "bigtx:3:130:16"
 			w := measure(base)
 			total[base] = w
 			items = append(items, CrashItem{Base: base, Clean: true})
-			st := 40
+			st := 20
 			if th {
 				st = 6
 			}
@@ -515,7 +515,7 @@ func init() {
 		}
 		// the same crash points with fast-sync enabled at the restart (bootstrap, then CatchingUp and one
 		// Node.fastForward): 2 = no peer answers, 1 = peers as they are
-		fsStride := 3
+		fsStride := 2
 		if th {
 			fsStride = 1
 		}
@@ -526,7 +526,7 @@ func init() {
 			}
 		}
 		// a refused event before the crash: an adversary holding validator 1's key sends node 0 a correctly signed
-		// event with a wrong index at seed position 14; every (3rd) later crash point
+		// event with a wrong index at seed position 14; every (2nd) later crash point
 		{
 			dev := []sched.Dev{{Pos: 14, Alt: sched.Action{K: "BX", A: 0, B: 1}, Ins: true}}
 			items = append(items, CrashItem{Base: srcs[0].base, Clean: true, Devs: dev})
@@ -535,7 +535,7 @@ func init() {
 			}
 		}
 		// crash-model validation with real SIGKILLs
-		kstride := 23
+		kstride := 11
 		if th {
 			kstride = 3
 		}
